@@ -61,6 +61,20 @@ def rule_raw_comparison(ctx, rid="R9.2"):
             if f is None or f in seen:
                 continue
             seen.add(f)
+            # first: the function evaluated on abstract operands that support ordering against each other and nothing else -- any
+            # float()/round()/arithmetic applied to them leaves the fragment (then the structural reading below decides)
+            from .c01 import scalar_rows_eval
+            try:
+                res = scalar_rows_eval(prog, f, d, k)
+            except RecursionError:
+                res = (None, "recursion")
+            if res[0] is not None:
+                bad, rows = res
+                if not bad:
+                    r.ok(site(f), "[semantic] %s.%s: %d rows decided by ordering the unmodified operands alone (through any helper or operator function)" % (d, k, rows))
+                else:
+                    r.fail("%s|relation|%s" % (f.qual, k), site(f), "%s.%s: when %s the function gives %s, expected %s" % (d, k, bad[0][0], bad[0][1], bad[0][2]))
+                continue
             ip, vp = calls.param_with_role(f, "instance"), calls.param_with_role(f, "value")
             cmps = [n for n in walk_body(f) if isinstance(n, ast.Compare) and any(isinstance(o, (ast.Lt, ast.LtE, ast.Gt, ast.GtE)) for o in n.ops)]
             if not cmps:
@@ -79,6 +93,83 @@ def rule_raw_comparison(ctx, rid="R9.2"):
                     r.fail("%s|arithmetic|%s" % (f.qual, norm(n)[:50]), site(f, n), "arithmetic on the operands of a comparison keyword: %s" % norm(n)[:60])
                 if isinstance(n, ast.Call) and norm(n.func) in ("float", "round", "int", "abs") and any(isinstance(x, ast.Name) and x.id in (ip, vp) for x in ast.walk(n)):
                     r.fail("%s|conversion|%s" % (f.qual, norm(n)[:50]), site(f, n), "lossy conversion of an operand: %s" % norm(n)[:60])
+    return r
+
+
+def _mtable(ctx, f, keyword):
+    """the concrete-number table of sa/rules/numsem.py for one multipleOf/divisibleBy function, once per run"""
+    from . import numsem
+    key = "_mtable:%s" % f.qual
+    if key not in ctx.extra:
+        try:
+            ctx.extra[key] = numsem.multiple_eval(ctx.prog, f, keyword)
+        except RecursionError:
+            ctx.extra[key] = (None, "recursion", 0)
+    return ctx.extra[key]
+
+
+def _unrecognised(ctx, r, f, where, key, what):
+    """The structural reading does not apply to this shape (the operation sits in a helper, behind a callable, in a nested def).
+    That is not evidence of a defect: the concrete-number table decides what it can, the rest is recorded as not decided."""
+    kw = where[0].split(".")[-1]
+    res = _mtable(ctx, f, kw)
+    if res[0] is None:
+        r.ok(site(f) + " %s" % where, "NOT DECIDED: %s; the number table is outside the evaluated fragment (%s)" % (what, res[1]))
+        r.note(site(f), "%s not decided for %s: %s" % (r.id, f.qual, what))
+        return
+    bad = [(c, m) for c, m in sorted(res[0].items()) if m is not None]
+    if bad:
+        r.fail("%s|table|%s" % (f.qual, bad[0][0]), site(f), "%s; on the number table: %s" % (what, bad[0][1]))
+    else:
+        r.ok(site(f) + " %s" % where, "shape not recognised (%s); decided on the number table only: %d pairs evaluated, %d with an exact verdict, all agree, none raises" % (
+            what, res[1], res[2]))
+
+
+def rule_number_table(ctx, rid="R9.6"):
+    """Companion to R9.2-R9.5: the functions evaluated on concrete numbers (sa/rules/numsem.py), compared with exact rational arithmetic."""
+    from . import numsem
+    from .. import spec
+    prog = ctx.prog
+    r = ctx.rule(rid, "on a table of number pairs (huge integers, floats at both ends of the exponent range, 2**53 neighbours, signed zeros) every numeric "
+                      "keyword answers as exact rational arithmetic does where the property claims a verdict, and raises nowhere", floor=10)
+    for f, where in sorted(multiple_of_funcs(prog).items(), key=lambda kv: kv[0].qual):
+        for w in where:
+            kw = w.split(".")[-1]
+            res = numsem.multiple_eval(prog, f, kw) if "_mtable:%s" % f.qual not in ctx.extra or kw != where[0].split(".")[-1] else ctx.extra["_mtable:%s" % f.qual]
+            if kw == where[0].split(".")[-1]:
+                ctx.extra["_mtable:%s" % f.qual] = res
+            label = "%s [%s]" % (site(f), w)
+            if res[0] is None:
+                r.ok(label, "NOT DECIDED: outside the evaluated fragment (%s)" % res[1])
+                continue
+            for clause, msg in sorted(res[0].items()):
+                if msg is None:
+                    r.ok(label + " " + clause, "%d pairs, %d with an exact verdict" % (res[1], res[2]))
+                else:
+                    r.fail("%s|table|%s" % (f.qual, clause), site(f), "%s: %s" % (w, msg))
+    seen = set()
+    for d in DRAFTS:
+        for k in COMPARISON_KEYWORDS:
+            f = prog.tables.drafts[d].table.get(k)
+            if f is None:
+                continue
+            rel = spec.relation(d, k)
+            if rel is None or (f, k, d in ("draft3", "draft4")) in seen:
+                continue
+            seen.add((f, k, d in ("draft3", "draft4")))
+            try:
+                res = numsem.bounds_eval(prog, f, d, k, rel[1], spec.MODIFIER.get(k))
+            except RecursionError:
+                res = (None, "recursion")
+            label = "%s [%s.%s]" % (site(f), d, k)
+            if res[0] is None:
+                r.ok(label, "NOT DECIDED: outside the evaluated fragment (%s)" % res[1])
+                continue
+            for clause, msg in sorted(res[0].items()):
+                if msg is None:
+                    r.ok(label + " " + clause, "%d rows" % res[1])
+                else:
+                    r.fail("%s|table|%s|%s" % (f.qual, k, clause), site(f), "%s.%s: %s" % (d, k, msg))
     return r
 
 
@@ -102,7 +193,7 @@ def rule_integer_path(ctx, rid="R9.3"):
         tests = [n for n in cfg.live if n.kind == "test" and isinstance(n.ast, ast.Call) and norm(n.ast.func) == "isinstance" and len(n.ast.args) == 2
                  and norm(n.ast.args[0]) == vp and norm(n.ast.args[1]) == "float"]
         if not tests:
-            r.fail("%s|no-float-test" % f.qual, site(f), "no isinstance(<divisor>, float) split: integer operands would go through float arithmetic")
+            _unrecognised(ctx, r, f, where, "no-float-test", "no `isinstance(<divisor>, float)` branch in the keyword function itself")
             continue
         t = tests[0]
         # nodes reachable from the false edge before the join with the true edge
@@ -148,24 +239,23 @@ def rule_integer_path(ctx, rid="R9.3"):
             indirect = [n for n in walk_body(f) if isinstance(n, ast.Call) and isinstance(n.func, ast.Name) and n.func.id in local_callables
                         and [norm(a) for a in n.args] == [ip, vp]]
             if indirect:
-                r.ok(site(f, indirect[0]) + " %s" % where, "NOT DECIDED: the verdict comes from `%s`, a callable chosen at run time" % norm(indirect[0]))
-                r.note(site(f, indirect[0]), "integer-divisor path of %s not decided: operation behind a run-time chosen callable" % f.qual)
+                _unrecognised(ctx, r, f, where, "indirect", "the verdict comes from `%s`, a callable chosen at run time" % norm(indirect[0]))
             else:
-                r.fail("%s|no-integer-mod" % f.qual, site(f), "the integer-divisor path does not decide by `instance % divisor`")
+                _unrecognised(ctx, r, f, where, "no-integer-mod", "no `instance % divisor` on the integer-divisor path of the keyword function itself")
     return r
 
 
 def rule_verdict_depends(ctx, rid="R9.4"):
     prog = ctx.prog
     calls = calls_of(prog)
-    r = ctx.rule(rid, "every definition of the divisibility verdict depends on both the instance and the divisor", floor=3)
+    r = ctx.rule(rid, "every definition of the divisibility verdict depends on both the instance and the divisor", floor=1)
     for f, where in multiple_of_funcs(prog).items():
         cfg = cfg_of(f)
         rd = reaching_defs(cfg)
         ip, vp = calls.param_with_role(f, "instance"), calls.param_with_role(f, "value")
         ys = [n for n in cfg.live if n.kind == "yield"]
         if len(ys) != 1:
-            r.fail("%s|yields:%d" % (f.qual, len(ys)), site(f), "expected a single yield")
+            _unrecognised(ctx, r, f, where, "yields", "%d yields instead of one" % len(ys))
             continue
         preds = ys[0].pred
         tv = None
@@ -173,7 +263,7 @@ def rule_verdict_depends(ctx, rid="R9.4"):
             if p.kind == "test" and isinstance(p.ast, ast.Name):
                 tv = (p, p.ast.id, l)
         if tv is None:
-            r.fail("%s|verdict-test" % f.qual, site(f, ys[0].ast), "the yield is not guarded by a test of a verdict variable")
+            _unrecognised(ctx, r, f, where, "verdict-test", "the yield is not directly guarded by a test of a verdict variable")
             continue
         p, var, lab = tv
         defs = [cfg.nodes[d] for d in rd[p.id].get(var, ())]
@@ -258,3 +348,4 @@ def run(ctx):
     rule_integer_path(ctx)
     rule_verdict_depends(ctx)
     rule_overflow_reaches_fallback(ctx)
+    rule_number_table(ctx)
